@@ -416,6 +416,17 @@ def extra_one(which: str, ai: int, bidx: int):
             return [("exception", "annotated-parameter:" + type(e).__name__, f"({bn}) raised {e!r}", "")]
         # the source annotation is replicated; what must hold is that the stub as a whole evaluates
         return [(k, "annotated-parameter" if not s_.startswith("typed-dict") else s_, f"({bn}) " + m, text) for k, s_, m in check_stub(text, "tgt", tgt, [(((), "fann"), {"opts": dict}, None)], "annotated-parameter")]
+    if which == "annotated-nested-generic":
+        # a source annotation that is a subscripted user generic nested in a class of another module (replicated into the
+        # stub): the stub provides every name the annotation uses
+        import nest
+
+        BN[(((), "fgen"), "x")] = "plain"
+        try:
+            text = build([CallTrace(tgt.fgen, {"x": cls[ai]}, None, None)])["tgt"]
+        except Exception as e:  # noqa: BLE001
+            return [("exception", "annotated-nested-generic:" + type(e).__name__, f"raised {e!r}", "")]
+        return [(k, "annotated-nested-generic" if not s_.startswith("typed-dict") else s_, m, text) for k, s_, m in check_stub(text, "tgt", tgt, [(((), "fgen"), {"b": nest.Holder.GBox[int], "x": Optional[cls[ai]] if cls[ai] is not NoneT else cls[ai]}, None)], "annotated-nested-generic")]
     if which == "gen-yield-and-return":
         # a generator that yields dicts AND returns a dict: both generated classes are in the stub
         Y, R = atd({"fy": cls[ai]}), atd({"fr": cls[(ai + 1) % len(cls)], "fy": int})
@@ -447,6 +458,7 @@ def extra_family(quick: bool) -> Result:
         todo += [("annotated", ai, names.index(n)) for n in ("td", "td_opt", "List_td", "Dict", "plain")]
         todo += [("k0-nested", ai, names.index(n)) for n in NESTED_TD_BUILDERS]
         todo += [("gen-yield-and-return", ai, 0)]
+        todo += [("annotated-nested-generic", ai, 0)]
     for which, ai, bidx in todo:
         res.states += 1
         res.transitions += 2
@@ -460,7 +472,7 @@ def extra_family(quick: bool) -> Result:
             res.nontrivial_n += 1
         if not any(k in ("exception", "syntax") for k, *_ in vs):
             res.oblige("saw:extra:" + which, True)
-    for w in ("zero-arg", "annotated", "k0-nested", "gen-yield-and-return"):
+    for w in ("zero-arg", "annotated", "k0-nested", "gen-yield-and-return", "annotated-nested-generic"):
         res.obligations.setdefault("saw:extra:" + w, False)
     return res
 
